@@ -1,17 +1,33 @@
 (** C16 — Pathname expansion returns exactly the existing matching paths, in sorted order. *)
-From GoSh Require Import Base.Bytes Pattern.Regex Pattern.PCompile Pattern.Match Pattern.PSpec Pattern.Glob Pattern.GlobProofs.
+From GoSh Require Import Base.Bytes Pattern.Regex Pattern.PCompile Pattern.Match Pattern.PSpec Pattern.Glob Pattern.GlobProofs Pattern.GlobExact.
 From Coq Require Import Permutation.
 
 (** Full statement on the model over an abstract file system (tree of files, directories and
-    dangling symlinks): Glob returns exactly the specification's path list (existing paths that
-    match component by component, hidden-name rule, directories only before a separator, sorted).
-    Stated in full, NOT yet proved; decided on every run by evaluating [glob_spec] (extracted) on
-    the implementation's answers over materialised random trees and by model correspondence. *)
-Definition C16_glob_exact_statement : Prop :=
-  forall root cwd pattern paths,
+    dangling symlinks, names without a separator): whatever the pattern and the working directory,
+    when Glob returns paths they are exactly the specification's list -- the existing paths that
+    match component by component ([pmb], the denotation of C12), hidden names only for a component
+    that starts with a literal period, directories only before a separator, repeated and escaped
+    separators kept as written -- in ascending byte order, each once.
+    (Glob sorts after every component and stops early on an empty intermediate result; the
+    specification filters everything and sorts once.)
+    The model is compared with pattern.Glob on materialised trees on every run, and the extracted
+    [glob_spec] is evaluated on the implementation's own answers. *)
+Theorem C16_glob_exact :
+  forall root cwd pattern paths, wf_dir root ->
     glob_model root cwd pattern = GOk paths -> glob_spec root cwd pattern = Some paths.
+Proof. intros root cwd pattern paths Hwf. exact (glob_exact root cwd Hwf pattern paths). Qed.
+Print Assumptions C16_glob_exact.
 
-(** Proved: the sorting step of the model (sort.Strings after every component) yields an
+(** Non-vacuity: a tree with a hidden entry, a file and two directories; "*/?*" and ".*". *)
+Example C16_witness :
+  let d1 := Dir [([120]%N, File); ([46; 104]%N, File)] in
+  let root := [([98; 45]%N, d1); ([98]%N, Dir [([121]%N, File)]); ([102]%N, File); ([46; 99]%N, Dir [])] in
+  wf_dir root /\
+  glob_model root [] [47; 42; 47; 63; 42]%N = GOk [[47; 98; 45; 47; 120]; [47; 98; 47; 121]]%N /\
+  glob_model root [] [46; 42]%N = GOk [[46]; [46; 46]; [46; 99]]%N.
+Proof. vm_compute. repeat split. Qed.
+
+(** Kept from earlier rounds: the sorting step of the model (sort.Strings after every component) yields an
     ascending permutation, so results are in ascending byte order without loss or duplication. *)
 Theorem C16_partial_sort_ascending : forall l, ascending (sort_bytes l).
 Proof. exact sort_bytes_ascending. Qed.
